@@ -198,7 +198,16 @@ type Lab struct {
 
 var labSeq int
 
+//go:embed tmpl/fuzz_lab_test.go.txt
+var fuzzLabSrc string
+
 type Options struct {
+	// FuzzLab: also write the native fuzz target FuzzLab (reference interpreter inside the
+	// target) with the cases and seeds into the lab module. Needs the sources of pkg/gram
+	// and pkg/refpeg, which are copied from the verification tree.
+	FuzzLab    bool
+	FuzzSeeds  []byte // JSON list of {g, entry, input}
+	FuzzOracle string // verdict | tokens | differential
 	// ExtraFiles are written to the root of the lab module (e.g. a fuzz test in package main).
 	ExtraFiles map[string][]byte
 	Race       bool
@@ -258,6 +267,40 @@ func Build(c *drv.Ctx, cases []*Case, variants []Variant, opt Options) (*Lab, er
 			}
 			must(os.WriteFile(filepath.Join(pd, "runner.go"), rb.Bytes(), 0o644))
 		}
+	}
+	if opt.FuzzLab {
+		copyPkg := func(from, to, oldImport, newImport string, files ...string) {
+			must(os.MkdirAll(filepath.Join(dir, to), 0o755))
+			for _, f := range files {
+				b, err := os.ReadFile(filepath.Join(c.Verif, from, f))
+				must(err)
+				must(os.WriteFile(filepath.Join(dir, to, f), bytes.ReplaceAll(b, []byte(oldImport), []byte(newImport)), 0o644))
+			}
+		}
+		copyPkg("pkg/gram", "gram", "verif/pkg/gram", "lab/gram", "ast.go", "print.go", "analysis.go")
+		copyPkg("pkg/refpeg", "refpeg", "verif/pkg/gram", "lab/gram", "refpeg.go")
+		type fc struct {
+			ID       int           `json:"id"`
+			G        *gram.Grammar `json:"g"`
+			Variants []string      `json:"variants"`
+			Oracle   string        `json:"oracle"`
+		}
+		var fcs []fc
+		for _, cs := range cases {
+			var vs []string
+			for _, v := range variants {
+				vs = append(vs, v.Name)
+			}
+			fcs = append(fcs, fc{cs.ID, cs.G, vs, opt.FuzzOracle})
+		}
+		b, _ := json.Marshal(fcs)
+		must(os.WriteFile(filepath.Join(dir, "fuzzcases.json"), b, 0o644))
+		seeds := opt.FuzzSeeds
+		if seeds == nil {
+			seeds = []byte("[]")
+		}
+		must(os.WriteFile(filepath.Join(dir, "fuzzseeds.json"), seeds, 0o644))
+		must(os.WriteFile(filepath.Join(dir, "fuzz_lab_test.go"), []byte(fuzzLabSrc), 0o644))
 	}
 	return l.finish(c, opt, start)
 }
